@@ -25,7 +25,7 @@ from calgebra.core import Timeline
 from calgebra.interval import Interval
 from calgebra.mutable.memory import MemoryTimeline
 from calgebra.properties import Property, field
-from calgebra.recurrence import RecurringPattern
+from calgebra.recurrence import RecurringPattern, _anchor_wall_clock
 
 # Field Helpers
 summary: Property[Interval] = field("summary")
@@ -340,16 +340,9 @@ def _interval_to_vevent(item: Interval | RecurringPattern[Any]) -> Event:
         # date its phase is aligned to, in the pattern's own zone
         zone = rp.zone or timezone.utc
         if rp.anchor_timestamp is not None:
-            dtstart = datetime.fromtimestamp(rp.anchor_timestamp, tz=zone)
             # Show the pattern's own wall-clock time: an anchor given inside a DST
             # gap reads an hour later than the time its occurrences start at
-            wall = dtstart.replace(
-                hour=rp.start_seconds // 3600,
-                minute=rp.start_seconds % 3600 // 60,
-                second=rp.start_seconds % 60,
-            )
-            if int(wall.timestamp()) == rp.anchor_timestamp:
-                dtstart = wall
+            dtstart = _anchor_wall_clock(rp.anchor_timestamp, rp.start_seconds, zone)
         else:
             dtstart = _phase_base(rp.freq).replace(tzinfo=zone) + timedelta(
                 seconds=rp.start_seconds
